@@ -78,6 +78,8 @@ let () =
         let s = int_of_string s in
         w := { !w with w_files = List.mapi (fun j x -> if j = s then Some (unhexo h) else x) !w.w_files }
       | ["PAINT"] -> ()
+      | ["SHOW"] ->
+        print_endline ("I " ^ !cid ^ String.concat " |" (List.map (fun i -> Printf.sprintf " db%d %s" i (dump_db (get_db i))) !users))
       | "OP" :: name :: i :: rest ->
         let i = int_of_string i in
         let args = List.filter (fun a -> not (String.contains a '=')) rest in
@@ -89,7 +91,7 @@ let () =
         let x = match args with a :: _ -> nat_of_int (int_of_string a) | [] -> O in
         let ni = nat_of_int i in
         let op = match name with
-          | "backup" -> OBackup ni | "restore" -> ORestore (ni, x) | "sync" -> OSync (ni, order)
+          | "backup" -> OBackup ni | "restore" -> ORestore (ni, x) | "restoref" -> ORestoreFile (ni, x) | "sync" -> OSync (ni, order)
           | "export" -> OExport (ni, x) | "import" -> OImport (ni, x) | "merge" -> OMerge (ni, x)
           | "ubackup" -> OUBackup (ni, x) | "urestore" -> OURestore (ni, x)
           | _ -> failwith "bad op" in
